@@ -159,12 +159,14 @@ def rules(ctx, tab, tag=""):
                 new = v[1] if v else None
                 ok = new in ORDER and (cur is None or ORDER[new] > ORDER.get(cur, -1))
                 why = "forward"
+                # several steps may be taken in one frame, in one store or in several: only the frame's final state and
+                # its single event are observable
                 if ok and new == "Waiting":
                     ok = cur == "None"
                     why = "Waiting is entered only from None"
                 if ok and new == "Playing":
-                    ok = cur == "Waiting" and r.ge_delay == 1
-                    why = "Playing is entered only from Waiting and only when position >= delay"
+                    ok = cur in ("None", "Waiting") and r.ge_delay == 1
+                    why = "Playing is entered only before it was Playing and only when position >= delay"
                 if ok and new == "Ended":
                     ok = r.ge_duration == 1
                     why = "Ended is entered only when position >= total duration"
